@@ -113,7 +113,7 @@ def mes_table(ctx):
     return _emit(d)
 
 
-@rule("PRECOND-CHECK", ["C08", "C01", "C20", "C05"], floor=4)
+@rule("PRECOND-CHECK", ["C08", "C01", "C20", "C05", "C16", "C06", "C13"], floor=4)
 def precond_check(ctx):
     """check_preconditions: a precondition with a fixed position must match exactly there; one without must match at
     some position from max(start, min_position) to the end of input; any failure answers false, all satisfied true."""
@@ -178,6 +178,22 @@ def precond_check(ctx):
     for k in ("all-satisfied", "fixed|failure-false", "floating|range-bounds", "floating|not-found-false"):
         if k not in d:
             d[k] = [False, "check_preconditions lost its %s clause" % k, b.loc()]
+    # An empty Atom (the literal program of pattern "" under flag q) can be a precondition; the floating search
+    # ranges below len(search) and would miss it at the end of the input.  That is harmless only because literal
+    # programs always carry a prefix and preconditions are not consulted on the prefix-driven scan.
+    mb = ctx.body("re_matcher::ReMatcher::matches")
+    ap = ctx.body("re_program::ReProgram::add_precondition")
+    if mb is None or ap is None:
+        _rec(d, "empty-atom-precondition-harmless", False, "ReMatcher::matches or ReProgram::add_precondition missing", None)
+    else:
+        from ..dom import call_sites, guard_strings
+        sites = call_sites(mb, lambda r: r.endswith("::check_preconditions"))
+        if not sites:
+            _rec(d, "empty-atom-precondition-harmless", False, "matches() no longer consults the preconditions (re-audit)", mb.loc())
+        for bb, t_, r_ in sites:
+            g = [strip_ver(x) for x in guard_strings(mb, bb, ctx.senv(mb))]
+            okk = "variant(a1.program.prefix)=None" in g or any(x.startswith("eq(bitand(2, a1.program.optimization_flags), 2)") for x in g)
+            _rec(d, "empty-atom-precondition-harmless", okk, "check_preconditions is consulted on a path where the program may be a literal one (prefix present): the empty atom of pattern \"\" under flag q is then 'not found' on the empty input, the regex is taken for non-nullable and tokenize never ends (guards %s)" % g[:4], mb.loc(bb))
     return _emit(d)
 
 
